@@ -722,7 +722,7 @@ func main() {
 			if hier {
 				g.New = 2
 			}
-			add(fmt.Sprintf("long-seq/hier=%v-pers=%v", hier, pers), fmt.Sprintf("every sequence of %d operations over {Put A3/C8/F8/G8, Get A, FindMissing, Get+CloneStream C, Get C with a too small size limit} with <=1 injected allocation failure, exact free-region count at the end", depth), g, 1, longSeq(g, depth, 1))
+			add(fmt.Sprintf("long-seq/hier=%v-pers=%v", hier, pers), fmt.Sprintf("every sequence of %d operations over {Put A3/C8/F8/G8, Get A, FindMissing, Get+CloneStream C, Get C with a too small size limit; persistent: one step of the syncer loops, restart on the same media} with <=1 injected allocation failure, exact free-region count at the end", depth), g, 1, longSeq(g, depth, 1))
 		}
 	}
 	mc.Run(r, scs)
